@@ -175,4 +175,25 @@ def removeNode (g : Graph) (id : String) : Graph :=
   let g2 := (g1.adj id true).foldl (fun g e => removeEdge g id true e.1 e.2.1 e.2.2) g1
   { g2 with nodes := g2.nodes.filter (·.id != id) }
 
+/-! ## writing -/
+
+/-- `Node.to_gfa_line()` (always called with `with_seq=True`; an empty stored sequence prints as `*`) -/
+def segLineOf (n : Node) : SegLine := ⟨n.id, if n.seq == "" then "*" else n.seq, n.tags⟩
+
+def edgeTagsGet (g : Graph) (k : EdgeKey) : Option (List String) := (g.edgeTags.find? (·.1 == k)).map (·.2)
+
+/-- the `L` lines `write_gfa` emits while visiting node `n1`: one per adjacency entry whose `edge_tags` key exists, i.e. in the
+    direction the link was declared; `inSet` = membership in `set_of_nodes` -/
+def linkLinesOf (g : Graph) (inSet : String → Bool) (n1 : Node) : List LinkLine :=
+  (n1.startAdj.filterMap (fun e =>
+    if inSet e.1 then (edgeTagsGet g (n1.id, false, e.1, e.2.1)).map (fun tags => ⟨n1.id, false, e.1, !e.2.1, e.2.2, tags⟩) else none)) ++
+  (n1.endAdj.filterMap (fun e =>
+    if inSet e.1 then (edgeTagsGet g (n1.id, true, e.1, e.2.1)).map (fun tags => ⟨n1.id, true, e.1, !e.2.1, e.2.2, tags⟩) else none))
+
+/-- `write_gfa(set_of_nodes = order)`: all S lines in the given order, then the L lines node by node
+    (ids not in the graph are skipped with a warning) -/
+def writeGfa (g : Graph) (order : List String) : GfaFile :=
+  let ns := order.filterMap g.find
+  { segs := ns.map segLineOf, links := ns.flatMap (linkLinesOf g (fun id => order.contains id)) }
+
 end Gaftools.Gfa
